@@ -43,7 +43,9 @@ RULE = (
     "sequence of leaf-transport calls with sizes) among executions with at least one non-default delivery. Full duplex under "
     "back-pressure (c08_duplex): the leaf's send_all() of application data blocks until the library's reader task has drained the "
     "peer's whole write (a peer that reads only after its own large write went through); one or two writer tasks and the reader "
-    "started in 5 orders with 0/1/3 loop turns between them, recv/recv_into, sizes {17,40000,100000} per side: every task must finish"
+    "started in 5 orders with 0/1/3 loop turns between them, recv/recv_into, sizes {17,40000,100000} per side: every task must finish; "
+    "a writer cancelled (0/1/2/4 loop turns after it started) while it waits for the send lock held by a blocked writer, followed by a third write: the peer decrypts "
+    "A, then B entirely or not at all, then C"
 )
 ASSUMPTIONS = [
     "the peer is CPython's ssl.SSLObject (OpenSSL) driven by the harness; OpenSSL and asyncio are executed, not modelled",
